@@ -4,8 +4,7 @@ package props
 //
 // Generator: (schema, JSON value) from the C01 generator x 5 repr representations.
 // Oracle: differential — verdict of each representation == verdict of the canonical decoding
-// (json.Unmarshal into any); a panic is a failure. The canonical verdict is additionally
-// compared with the reference evaluator (so a wrong-but-consistent pair cannot hide).
+// (json.Unmarshal into any); a panic is a failure.
 
 import (
 	"encoding/json"
@@ -85,7 +84,8 @@ func TestC08(t *testing.T) {
 		lens := rapid.SampledFrom([]sgen.Lens{sgen.LensAny, sgen.LensAny, sgen.LensNumeric, sgen.LensString, sgen.LensObject, sgen.LensArray}).Draw(t, "lens")
 		c.Schema = sgen.Draw(t, sgen.Opts{Draft: d, MaxDepth: 2, Lens: lens})
 		insts := sgen.Instances(t, c.Schema, 1)
-		stripUnsafeMultipleOf(c.Schema, insts)
+		// multipleOf stays whatever the magnitudes are: the reference here is the canonical decoding
+		// of the same document, not exact arithmetic, so C01's multipleOf restriction does not apply
 		c.Inst = insts[0]
 		used := map[string]int{}
 		for i := 0; i < 5; i++ {
